@@ -18,6 +18,10 @@ import FalconModel.LazyLock
          shape-mismatch:<file:qualname>      if e.g. a memo decorator is classified as configuration
          stale:<file:qualname>               if the shape is GONE (a table row / per-request class no longer in the source)
       a shape with the form `lazy-init:lock` (a lock created on first use) is admitted by no proved kind: `Ll.lazy_lock_witness`
+      a shape `closure-cell:bound:<values>|<uses>` (an object created once by a factory and kept in the closure of the function it returns):
+        a fresh container/instance that the inner function raises, returns or yields - one object handed to every request, e.g. a
+        pre-built exception - is admitted by no proved kind (only OTHER / per-request); one that is mutated is not read-only;
+        `shared-raise:*` (raise of an object that exists before the request) likewise only OTHER / per-request
 
     lzlock <eager 0|1> <threads k> <schedule: comma list of thread ids | ->
       -> t0=<pc> .. t(k-1)=<pc> acq=<thread>:<lock>,.. nlocks=<locks created> maxcrit=<max. threads inside at once> agree=<1|0>
@@ -84,8 +88,21 @@ def kindTheorem : String → Option String
   | _ => none
 
 /-- which kinds a detector shape may be given -/
+def hasSub (s sub : String) : Bool := (s.splitOn sub).length > 1
+
 def shapeAllows (shape kind : String) : Bool :=
   if (shape.splitOn "lazy-init:lock").length > 1 then kind == "OTHER"
+  else if shape.startsWith "shared-raise:" then kind == "OTHER" || kind == "per-request"
+  else if shape.startsWith "closure-cell:" then
+    match shape.splitOn "|" with
+    | [vals, uses] =>
+      let us := uses.splitOn "+"
+      let fresh := hasSub vals "instance:" || hasSub vals "container"
+      let handsOut := us.contains "raise" || us.contains "return" || us.contains "yield"
+      if fresh && handsOut then kind == "OTHER" || kind == "per-request"
+      else if us.contains "mutate" then kind != "read-only" && !(kind.startsWith "memo-of-pure-function")
+      else !(kind.startsWith "memo-of-pure-function") && kind != "lazily-initialised-idempotent"
+    | _ => false
   else if shape == "class:exists" then kind == "per-request"
   else if shape == "class-attr:class-literal" then kind == "read-only"
   else if shape.startsWith "memo:" then kind.startsWith "memo-of-pure-function" || kind == "per-request"
